@@ -79,7 +79,7 @@ def save(mesh : Mesh, filename: str, ignore_elements:set = None) -> None:
     Raises:
         Exception: Unsupported file extension
     """
-    if isinstance(mesh,VolumeMesh) and ".geogram" in filename and all(len(c)==4 for c in mesh.cells):
+    if isinstance(mesh,VolumeMesh) and ".geogram" in filename.lower() and all(len(c)==4 for c in mesh.cells):
         mesh.connectivity._compute_adjacent_cell() # the cell adjacency is only defined (and only exported) for tetrahedral meshes
     raw_mesh = RawMeshData(mesh) # get rid of connectivity and additional attributes depending on dimension
     if ignore_elements is not None:
